@@ -187,7 +187,7 @@ def run_check(spec, tier, seed, replay=None, verbose=False, workers_override=Non
     os.makedirs(rundir)
     faildir = os.path.join(FAIL_DIR, pid)
     env = dict(os.environ)
-    env["ASAN_OPTIONS"] = "detect_leaks=0:detect_stack_use_after_return=1:abort_on_error=0:allocator_may_return_null=1:handle_abort=1:exitcode=77"
+    env["ASAN_OPTIONS"] = "detect_leaks=0:detect_stack_use_after_return=1:abort_on_error=0:allocator_may_return_null=1:handle_abort=1:exitcode=77:malloc_context_size=5:quarantine_size_mb=64"
     env["UBSAN_OPTIONS"] = "print_stacktrace=1:halt_on_error=1:exitcode=77"
     env["TSAN_OPTIONS"] = "halt_on_error=0:second_deadlock_stack=1:exitcode=66"
     env["VERIF_REPO"] = REPO
@@ -243,6 +243,11 @@ def run_check(spec, tier, seed, replay=None, verbose=False, workers_override=Non
                 violations.append((sig, (m.group(0) if m else "ThreadSanitizer report") + "\n" + log_text[:3000], path))
             else:
                 notes.append(f"{tag}: ThreadSanitizer report did not reproduce 3x ({confirmed}/3): {sig}")
+            return rep
+        if rc == -9:
+            # SIGKILL never comes from the tested code or a sanitizer (they abort or exit): the system's OOM killer or an
+            # operator ended this worker. Its share of the exploration is missing, which is not a statement about the property.
+            notes.append(f"{tag}: killed by the system (SIGKILL, e.g. out of memory); inconclusive, not a violation")
             return rep
         crashed = rc not in (0, 1) or rep is None
         if crashed:
